@@ -535,7 +535,7 @@ func TestVerifC05Cache(t *testing.T) {
 	}
 	pl := plg.(*Plugin)
 
-	n := h.N(400, 6000)
+	n := h.N(1500, 40000)
 	for idx := 0; idx < n; idx++ {
 		r := h.Begin(idx)
 		if r == nil {
@@ -579,8 +579,12 @@ func TestVerifC05Cache(t *testing.T) {
 			steps = r.Range(20, 60)
 		}
 		muts := 0
+		initR := r.Range(1, 3)
 		for s := 0; s < steps; s++ {
 			k := r.Intn(100)
+			if s < initR {
+				k = 0 // start with reservation events so that later ops mostly hit live reservations
+			}
 			switch {
 			case k < 34: // reservation event
 				u := r.Range(1, 4)
@@ -852,11 +856,7 @@ func TestVerifC05Cache(t *testing.T) {
 							used = 0
 						}
 						if used+q[d] > c05Val(d, alloc)-c05Val(d, inner) {
-							fp := "C05:fit-overcommit"
-							if c05Val(d, ri.Allocated) != sum { // downstream of an already reported ledger drift
-								fp = "C05:fit-overcommit-after-ledger-drift"
-							}
-							h.Fail(fp, "reservation %d dim %d: assigned %d - preemptible %d + request %d > allocatable %d - reserved %d but the pod was let in",
+							h.Fail("C05:fit-overcommit", "reservation %d dim %d: assigned %d - preemptible %d + request %d > allocatable %d - reserved %d but the pod was let in",
 								ru, d, sum, pre[d], q[d], c05Val(d, alloc), c05Val(d, inner))
 						}
 					}
